@@ -27,6 +27,7 @@ struct SchedScenario {
   std::vector<ClientProg> clients;
   int startRead = 3;   // clients are started at this read call of the bus thread (signal acquired)
   int p = 2;           // preemption bound
+  bool allOk = false;  // conformant bus (or one lost arbitration with a retry left): every waited operation must succeed
 };
 
 struct OpResult { int result = 99; Bytes slave; bool returned = false; };
@@ -144,6 +145,7 @@ static std::vector<SchedScenario> scenarios(bool thorough) {
         if (beh == 1) ss.bus.loseArbitrations = 1;
         if (beh == 3) ss.bus.silenceAtRead = 9;
         ss.clients = progs[pi];
+        ss.allOk = beh == 0 || beh == 1;
         ss.p = thorough ? 4 : 3;
         if (thorough && ss.clients.size() > 2) ss.p = 3;
         ss.name = std::string(enh ? "enh" : "plain") + "/prog" + std::to_string(pi) + "/bus" + std::to_string(beh) + "/p" + std::to_string(ss.p);
@@ -157,6 +159,7 @@ static std::vector<SchedScenario> scenarios(bool thorough) {
           else starts = {10, 11};
           for (int st : starts) {
             SchedScenario s2 = ss;
+            s2.allOk = false;  // submissions without signal may legitimately fail
             s2.startRead = st;
             s2.name += "/start" + std::to_string(st);
             v.push_back(s2);
@@ -238,6 +241,8 @@ static void execute(size_t idx, const SchedScenario& ss, vp::Explorer& e, bool l
       std::string who = "client" + std::to_string(ci) + "/op" + std::to_string(oi) + " (request " + ref::hex(ss.bus.reqs[op.req].master) + ")";
       if (!r.returned) { vd.add("C04/operation-not-returned", who + " did not return"); continue; }
       if (r.result == 1 || r.result == 2 || r.result == 99) vd.add("C04/indefinite-result/threads", who + " returned the non-result " + std::to_string(r.result));
+      if (ss.allOk && op.kind != OP_FIRE_AND_FORGET && r.result != RESULT_OK)
+        vd.add("C04/failed-without-cause/threads", who + " returned error " + std::to_string(r.result) + " although every participant answered conformantly");
       if (op.kind == OP_SEND_AND_WAIT && r.result == RESULT_OK) {
         // the response of the own request: reference = what the responder script of that request sends
         Bytes want;
